@@ -760,9 +760,48 @@ func discharge(o *Obligation, dir string, axioms []*Term, secs int, thorough boo
 	}
 	// stage 1: z3-new alone, short
 	ctx := context.Background()
-	first := runSolver(ctx, solvers[0], file, min(secs, 3))
-	results := []solveResult{first}
 	decided := func(r solveResult) bool { return r.answer == "sat" || r.answer == "unsat" }
+	// stage 1: z3-new alone, short; alongside it the same condition without its quantified hypotheses (see below)
+	var first solveResult
+	var results []solveResult
+	{
+		c1, cancel1 := context.WithCancel(ctx)
+		ch := make(chan solveResult, 2)
+		n := 1
+		go func() { ch <- runSolver(c1, solvers[0], file, min(secs, 3)) }()
+		started := false
+		timer := time.After(400 * time.Millisecond)
+		for got := 0; got < n; {
+			select {
+			case r := <-ch:
+				got++
+				results = append(results, r)
+				if decided(r) && !decided(first) {
+					first = r
+					cancel1()
+				}
+			case <-timer:
+				// not decided at once: start the ground variant alongside
+				if started || o.Cover {
+					continue
+				}
+				started = true
+				if gf := groundVariant(file); gf != "" {
+					n++
+					go func() {
+						defer os.Remove(gf)
+						r := runSolver(c1, solvers[0], gf, min(secs, 3))
+						r.backend += "(ground)"
+						if r.answer != "unsat" {
+							r.answer = "unknown"
+						}
+						ch <- r
+					}()
+				}
+			}
+		}
+		cancel1()
+	}
 	if !decided(first) {
 		var wg sync.WaitGroup
 		var mu sync.Mutex
@@ -903,7 +942,11 @@ func dischargeAll(obls []*Obligation, dir string, axiomsOf func(o *Obligation) [
 		go func(o *Obligation) {
 			defer wg.Done()
 			defer func() { <-sem }()
+			t0 := time.Now()
 			discharge(o, dir, axiomsOf(o), secs, thorough)
+			if os.Getenv("GOCV_TIMES") != "" {
+				fmt.Fprintf(os.Stderr, "TIME %6d ms  %s  [%s]\n", time.Since(t0).Milliseconds(), o.Name, o.Backend)
+			}
 		}(o)
 	}
 	wg.Wait()
